@@ -3,7 +3,7 @@ NOTES = ("Model-based verification with explicit TLA+ specifications (see DESIGN
          "behaviour: a TLC counterexample of the design model alone is exit 2, never a VIOLATION. known_findings.json lists "
          "genuine defects; fix: commits in /repo are listed there as fixed entries.")
 NOT_APPLICABLE = {}
-FROM_FILES = ["C07", "C01", "C18", "C14", "C06", "C19", "C10", "C09", "C17", "C08", "C20", "C15", "C16"]   # ids whose entry is read from props/cNN.manifest.json
+FROM_FILES = ["C07", "C01", "C18", "C14", "C06", "C19", "C10", "C09", "C17", "C08", "C20", "C15", "C16", "C03", "C13", "C05"]   # ids whose entry is read from props/cNN.manifest.json
 CHECKS = {
  "C02": {
   "text": "TLC exhaustively checks Layout.tla (layers: memtable / out-of-order files / ordered files; actions write, flush with the "
